@@ -122,6 +122,8 @@ class Node:
         """
         if isinstance(value, bool):
             value_str = 'true' if value else 'false'
+        elif value is None:
+            value_str = 'null'
         else:
             value_str = str(value)
         start_mark = self.yaml_node.start_mark
